@@ -491,6 +491,10 @@ func (x *Engine) havocLoc(st, pre *State, m *Clause, env map[string]Val, pkg *ss
 				x.havocKey(st, x.memKey(tn.Type()))
 				return
 			}
+			if bt, ok := types.Universe.Lookup(n.Args[1].Name).(*types.TypeName); ok {
+				x.havocKey(st, x.memKey(bt.Type()))
+				return
+			}
 		case "allfields":
 			// allfields(Type): every field of every object of that struct type
 			if tn := x.typeByNode(pkg, n.Args[1]); tn != nil {
@@ -623,6 +627,9 @@ func (x *Engine) modKeyStatic(fs *FuncSpec, m *Clause) (keys []string, ok bool) 
 		case "cells":
 			if tn, ok := pkg.Members[n.Args[1].Name].(*ssa.Type); ok {
 				return []string{x.memKey(tn.Type())}, true
+			}
+			if bt, ok := types.Universe.Lookup(n.Args[1].Name).(*types.TypeName); ok {
+				return []string{x.memKey(bt.Type())}, true
 			}
 		case "allfields":
 			if tn := x.typeByNode(pkg, n.Args[1]); tn != nil {
